@@ -57,13 +57,22 @@ def syntax_ok(root, rels):
     return True, ''
 
 
-def run_one(prop, edits, repo=None, want_rc=1, keep=False, check_syntax=True):
+def apply_patch(root, patch):
+    r = subprocess.run(['git', 'apply', '--unsafe-paths', '--directory=' + root, os.path.join(VERIF, patch)], cwd='/', stdout=subprocess.PIPE, stderr=subprocess.STDOUT)
+    return r.returncode == 0
+
+
+def run_one(prop, edits, repo=None, want_rc=1, keep=False, check_syntax=True, patch=None):
     """returns dict(status=killed|survived|skipped|silent|alarm|broken|nocompile, out=...)"""
     repo = repo or REPO
     d = tempfile.mkdtemp(prefix='nixmut-')
     try:
         make_copy(repo, d)
-        if not apply_edit(d, edits):
+        if patch is not None:
+            if not apply_patch(d, patch):
+                return {'status': 'skipped', 'out': 'patch does not apply to the current tree'}
+            check_syntax = False    # stored seeded changes were built and run through the test suite when they were confirmed
+        elif not apply_edit(d, edits):
             return {'status': 'skipped', 'out': 'anchor not found in the current tree'}
         if check_syntax:
             ok, msg = syntax_ok(d, [e[0] for e in edits])
@@ -120,8 +129,8 @@ def main():
 
     def work(j):
         kind, m = j
-        edits = [(e['file'], e['old'], e['new']) for e in m['edits']]
-        return kind, m, run_one(a.prop, edits, want_rc=1 if kind == 'mutant' else 0)
+        edits = [(e['file'], e['old'], e['new']) for e in m.get('edits', [])]
+        return kind, m, run_one(a.prop, edits, want_rc=1 if kind == 'mutant' else 0, patch=m.get('patch'))
     bad = 0
     with ThreadPoolExecutor(max_workers=4) as ex:
         for kind, m, r in ex.map(work, jobs):
